@@ -770,10 +770,17 @@ class BaseEvent(BaseModel, Generic[T_EventResultType]):
     @property
     def event_bus(self) -> 'EventBus':
         """Get the EventBus that is currently processing this event"""
-        from bubus.service import EventBus, inside_handler_context
+        from bubus.service import EventBus, _current_event_context, _current_eventbus_context, inside_handler_context
 
         if not inside_handler_context.get():
             raise AttributeError('event_bus property can only be accessed from within an event handler')
+
+        # For the event being handled, the answer is the bus that is running this handler. The last entry of
+        # event_path is not: once the event has been forwarded it names the forwarded-to bus, so a handler that
+        # runs after a forwarding handler of the same bus used to get the wrong bus.
+        running_bus = _current_eventbus_context.get()
+        if running_bus is not None and _current_event_context.get() is self:
+            return running_bus
 
         # The event_path contains all buses this event has passed through
         # The last one in the path is the one currently processing
